@@ -1,11 +1,11 @@
 SPECIFICATION MCSpec
 CONSTANTS
-  Keys = {1, 2, 3, 4, 5}
+  Keys = {1, 2, 3, 4}
   Samples = 3
   Nil = Nil
   CostSet = {0, 1, 2, 3}
   MaxSet = {3, 5}
   EstSet = {0, 1, 2}
-  MaxOps = 5
+  MaxOps = 4
 INVARIANTS UsedIsSum Bounded AdmissionBound RoomMeansNoVictims RoundOnlyWhenLacking VictimsGone VictimsNoMorePopular NotAddedNotCharged
 CHECK_DEADLOCK FALSE
